@@ -7,16 +7,22 @@ package main
 //
 // case = (tag world params)
 //   world  = (tables commits blocksizes srcdrop)
-//     tables     = ((pkv (chunk ...) size) ...)   table i; pkv 0: pk=[id], 1: pk=[id,a]; columns id,a,b.
+//     tables     = ((pkv (chunk ...) size) ...)   table i; variant pkv = column layout + key:
+//                  0: id,a,b pk=[id]  1: id,a,b pk=[id,a]  2: a,id,b pk=[id] (key not leading)
+//                  3: a,b,id pk=[id,a] (key columns last and in another order than the header); layouts 0,0,1,2.
 //                  chunk k < 100: 255 rows, k >= 100: (k mod 7)+1 rows (only as the last chunk); chunks
 //                  ascending, so block j of the table is chunk j.  Abstract table id = first index with
-//                  the same (pkv, chunks); abstract block id = chunk number; blkidx id = (pkv chunk).
-//     commits    = ((tableidx (parentidx ...) size) ...)  commit i (abstract id i), parents < i
-//     blocksizes = ((chunk size) ...)
-//     srcdrop    = ((tableidx ...) (chunk ...))  table / block objects deleted from the source store
+//                  the same (pkv, chunks); abstract block id = chunk + 1000*layout; blkidx id = (pkv block).
+//     commits    = ((tableidx (parentidx ...) size tz) ...)  commit i (abstract id i), parents < i; tz = author
+//                  zone offset in minutes + 2000
+//     blocksizes = ((block size) ...)
+//     srcdrop    = ((tableidx ...) (block ...))  table / block objects deleted from the source store
 //     size = bytes PackfileWriter.WriteObject reports for the object
 //   tag 0: params = (tosend tbs commons max dstpre)
-//     dstpre = ((commitidx ...) (tableidx ...) (chunk ...)) commits / full tables / bare blocks at the destination
+//     dstpre = ((commitidx ...) (tableidx ...) (block ...) tblobj tblidx prof blkidx stale) commits / full tables /
+//              bare blocks at the destination, then per object kind: table object alone (tableidx ...), table
+//              index alone, profile alone, single block indices ((tableidx j) ...), stale = table index and
+//              profile present with foreign content
 //   tag 1: params = (tosend tbs commons dstpre ops cut)   hostile stream: the honest object stream edited by
 //     ops = (0 i) drop | (1 i j) swap | (2 i k) tamper kind k | (3 i) append copy; re-framed cut objects per packfile
 // observation = (status recvdone packs final)
@@ -62,6 +68,7 @@ type c07Tbl struct {
 type c07Com struct {
 	tbl     int
 	parents []int
+	tz      int // author zone, minutes east of UTC
 }
 type c07Scn struct {
 	tag                  int
@@ -71,6 +78,9 @@ type c07Scn struct {
 	tosend, tbs, commons []int
 	max                  uint64
 	preC, preT, preB     []int
+	preTO, preTI, preTP  []int    // table object / table index / profile alone
+	preX                 [][2]int // (table index, block position): that block index alone
+	preStale             []int    // table index + profile with foreign content
 	ops                  [][]int
 	cut                  int
 }
@@ -90,7 +100,11 @@ func c07Decode(c *xt.T) *c07Scn {
 		s.tbls = append(s.tbls, c07Tbl{int(t.Kids[0].N), c07Ints(t.Kids[1])})
 	}
 	for _, t := range w.Kids[1].Kids {
-		s.coms = append(s.coms, c07Com{int(t.Kids[0].N), c07Ints(t.Kids[1])})
+		tz := 0
+		if len(t.Kids) > 3 {
+			tz = int(t.Kids[3].N) - 2000
+		}
+		s.coms = append(s.coms, c07Com{int(t.Kids[0].N), c07Ints(t.Kids[1]), tz})
 	}
 	s.dropT, s.dropB = c07Ints(w.Kids[3].Kids[0]), c07Ints(w.Kids[3].Kids[1])
 	s.tosend, s.tbs, s.commons = c07Ints(p.Kids[0]), c07Ints(p.Kids[1]), c07Ints(p.Kids[2])
@@ -109,6 +123,13 @@ func c07Decode(c *xt.T) *c07Scn {
 		}
 	}
 	s.preC, s.preT, s.preB = c07Ints(pre.Kids[0]), c07Ints(pre.Kids[1]), c07Ints(pre.Kids[2])
+	if len(pre.Kids) >= 8 {
+		s.preTO, s.preTI, s.preTP = c07Ints(pre.Kids[3]), c07Ints(pre.Kids[4]), c07Ints(pre.Kids[5])
+		for _, x := range pre.Kids[6].Kids {
+			s.preX = append(s.preX, [2]int{int(x.Kids[0].N), int(x.Kids[1].N)})
+		}
+		s.preStale = c07Ints(pre.Kids[7])
+	}
 	return s
 }
 
@@ -119,7 +140,7 @@ func c07Encode(s *c07Scn, w *c07World) *xt.T {
 	}
 	coms := xt.N()
 	for i, c := range s.coms {
-		coms.Add(xt.N(xt.LI(c.tbl), xt.Ints(c.parents), xt.LI(w.comSize[i])))
+		coms.Add(xt.N(xt.LI(c.tbl), xt.Ints(c.parents), xt.LI(w.comSize[i]), xt.LI(c.tz+2000)))
 	}
 	bs := xt.N()
 	ks := []int{}
@@ -131,7 +152,11 @@ func c07Encode(s *c07Scn, w *c07World) *xt.T {
 		bs.Add(xt.N(xt.LI(k), xt.LI(w.blkSize[k])))
 	}
 	world := xt.N(tbls, coms, bs, xt.N(xt.Ints(s.dropT), xt.Ints(s.dropB)))
-	pre := xt.N(xt.Ints(s.preC), xt.Ints(s.preT), xt.Ints(s.preB))
+	px := xt.N()
+	for _, x := range s.preX {
+		px.Add(xt.N(xt.LI(x[0]), xt.LI(x[1])))
+	}
+	pre := xt.N(xt.Ints(s.preC), xt.Ints(s.preT), xt.Ints(s.preB), xt.Ints(s.preTO), xt.Ints(s.preTI), xt.Ints(s.preTP), px, xt.Ints(s.preStale))
 	if s.tag == 0 {
 		return xt.N(xt.LI(0), world, xt.N(xt.Ints(s.tosend), xt.Ints(s.tbs), xt.Ints(s.commons), xt.L(s.max), pre))
 	}
@@ -161,12 +186,33 @@ func c07ChunkRows(k int) int {
 	return k%7 + 1
 }
 
-func c07CSV(chunks []int) []byte {
+func c07Layout(pkv int) int {
+	switch pkv {
+	case 0, 1:
+		return 0
+	case 2:
+		return 1
+	}
+	return 2
+}
+
+// abstract block id of chunk k in a table of variant pkv
+func c07Blk(pkv, k int) int { return k + 1000*c07Layout(pkv) }
+
+func c07CSV(pkv int, chunks []int) []byte {
 	var sb strings.Builder
-	sb.WriteString("id,a,b\n")
+	sb.WriteString([]string{"id,a,b\n", "a,id,b\n", "a,b,id\n"}[c07Layout(pkv)])
 	for _, k := range chunks {
 		for r := 0; r < c07ChunkRows(k); r++ {
-			fmt.Fprintf(&sb, "%04d-%03d,v%d,w%d\n", k, r, (k*31+r)%17, r%5)
+			id, a, b := fmt.Sprintf("%04d-%03d", k, r), fmt.Sprintf("v%d", (k*31+r)%17), fmt.Sprintf("w%d", r%5)
+			switch c07Layout(pkv) {
+			case 0:
+				fmt.Fprintf(&sb, "%s,%s,%s\n", id, a, b)
+			case 1:
+				fmt.Fprintf(&sb, "%s,%s,%s\n", a, id, b)
+			default:
+				fmt.Fprintf(&sb, "%s,%s,%s\n", a, b, id)
+			}
 		}
 	}
 	return []byte(sb.String())
@@ -183,10 +229,10 @@ func c07BuildTable(t c07Tbl) *c07TblBuild {
 		panic(err)
 	}
 	pk := []string{"id"}
-	if t.pkv != 0 {
+	if t.pkv == 1 || t.pkv == 3 {
 		pk = []string{"id", "a"}
 	}
-	sum, err := ingest.IngestTable(db, s, io.NopCloser(bytes.NewReader(c07CSV(t.chunks))), pk, logr.Discard())
+	sum, err := ingest.IngestTable(db, s, io.NopCloser(bytes.NewReader(c07CSV(t.pkv, t.chunks))), pk, logr.Discard())
 	if err != nil {
 		panic(fmt.Sprintf("c07 ingest: %v", err))
 	}
@@ -260,10 +306,11 @@ func c07BuildWorld(s *c07Scn) *c07World {
 		for k, v := range b.kv {
 			w.all.Set([]byte(k), v)
 		}
-		for j, k := range t.chunks {
+		for j, ch := range t.chunks {
+			k := c07Blk(t.pkv, ch)
 			bs := b.tbl.Blocks[j]
 			if old, ok := w.blkSum[k]; ok && !bytes.Equal(old, bs) {
-				panic(fmt.Sprintf("c07 bad case: chunk %d has two different block sums", k))
+				panic(fmt.Sprintf("c07 bad case: block %d has two different block sums", k))
 			}
 			w.blkSum[k] = bs
 			w.blkID[string(bs)] = k
@@ -278,7 +325,7 @@ func c07BuildWorld(s *c07Scn) *c07World {
 			Table:       w.tbls[c.tbl].sum,
 			AuthorName:  "author",
 			AuthorEmail: "author@example.com",
-			Time:        time.Unix(1600000000+int64(i)*60, 0).UTC(),
+			Time:        time.Unix(1600000000+int64(i)*60, 0).In(time.FixedZone("", c.tz*60)),
 			Message:     fmt.Sprintf("commit %d", i),
 		}
 		for _, p := range c.parents {
@@ -329,6 +376,24 @@ func (w *c07World) buildDst() *objmock.Store {
 	}
 	for _, k := range s.preB {
 		c07Copy(dst, w.all, c07Key("blk/", w.blkSum[k]))
+	}
+	for _, t := range s.preTO {
+		c07Copy(dst, w.all, c07Key("tbl/", w.tbls[t].sum))
+	}
+	for _, t := range s.preTI {
+		c07Copy(dst, w.all, c07Key("tblidx/", w.tbls[t].sum))
+	}
+	for _, t := range s.preTP {
+		c07Copy(dst, w.all, c07Key("tblsum/", w.tbls[t].sum))
+	}
+	for _, x := range s.preX {
+		if x[1] < len(w.tbls[x[0]].tbl.BlockIndices) {
+			c07Copy(dst, w.all, c07Key("blkidx/", w.tbls[x[0]].tbl.BlockIndices[x[1]]))
+		}
+	}
+	for _, t := range s.preStale {
+		dst.Set(c07Key("tblidx/", w.tbls[t].sum), []byte("stale table index"))
+		dst.Set(c07Key("tblsum/", w.tbls[t].sum), []byte("stale profile"))
 	}
 	return dst
 }
@@ -446,11 +511,35 @@ func c07Closed(db *objmock.Store) (bool, string) {
 
 // every stored table can be read back with all its blocks, block indices (equal to
 // re-indexing the rows), table index (first key of each block) and profile
-func c07TablesUsable(db *objmock.Store) (bool, string) {
+func c07TablesUsable(db *objmock.Store, which map[string]bool) (bool, string) {
 	keys, _ := objects.GetAllTableKeys(db)
+	for _, k := range keys {
+		if which != nil && !which[string(k)] {
+			continue
+		}
+		if ok, msg := c07TableUsable(db, k); !ok {
+			return false, msg
+		}
+	}
+	return true, ""
+}
+
+// the tables of a store that are usable
+func c07UsableSet(db *objmock.Store) map[string]bool {
+	out := map[string]bool{}
+	keys, _ := objects.GetAllTableKeys(db)
+	for _, k := range keys {
+		if ok, _ := c07TableUsable(db, k); ok {
+			out[string(k)] = true
+		}
+	}
+	return out
+}
+
+func c07TableUsable(db *objmock.Store, k []byte) (bool, string) {
 	enc := objects.NewStrListEncoder(true)
 	hash := meow.New(0)
-	for _, k := range keys {
+	{
 		tbl, err := objects.GetTable(db, k)
 		if err != nil {
 			return false, fmt.Sprintf("table %x unreadable: %v", k, err)
@@ -516,6 +605,10 @@ func c07TablesUsable(db *objmock.Store) (bool, string) {
 		}
 		if rows != int(tbl.RowsCount) {
 			return false, fmt.Sprintf("table %x: %d rows in blocks, RowsCount %d", k, rows, tbl.RowsCount)
+		}
+		// usable for diff: the table against itself yields nothing
+		if ok, msg := c07DiffEmpty(db, db, k); !ok {
+			return false, "self-diff: " + msg
 		}
 	}
 	return true, ""
@@ -626,7 +719,12 @@ func (w *c07World) senderArgs() ([]*objects.Commit, map[string]struct{}, [][]byt
 	coms := []*objects.Commit{}
 	expected := [][]byte{}
 	for _, i := range s.tosend {
-		coms = append(coms, w.coms[i])
+		// the callers (ClosedSetsFinder) hand the sender commits decoded from the store
+		com, err := objects.GetCommit(w.src, w.coms[i].Sum)
+		if err != nil {
+			panic(err)
+		}
+		coms = append(coms, com)
 		expected = append(expected, w.coms[i].Sum)
 	}
 	tbs := map[string]struct{}{}
@@ -653,6 +751,13 @@ func c07RunHonest(s *c07Scn, w *c07World) (*xt.T, Verdict) {
 	dst := w.buildDst()
 	before := c07KeySnapshot(dst)
 	closedBefore, _ := c07Closed(dst)
+	usableBefore := c07UsableSet(dst)
+	savedTables := map[string]bool{}
+	hook := apiutils.WithReceiverSaveObjectHook(func(objType int, sum []byte) {
+		if objType == packfile.ObjectTable {
+			savedTables[string(sum)] = true
+		}
+	})
 	coms, tbs, commons, expected := w.senderArgs()
 	v := OK()
 	bad := func(class, format string, a ...interface{}) {
@@ -669,7 +774,7 @@ func c07RunHonest(s *c07Scn, w *c07World) (*xt.T, Verdict) {
 	if err != nil {
 		status = 2
 	} else {
-		receiver := apiutils.NewObjectReceiver(dst, expected, logr.Discard())
+		receiver := apiutils.NewObjectReceiver(dst, expected, logr.Discard(), hook)
 		buf := bytes.NewBuffer(nil)
 		for iter := 0; ; iter++ {
 			if iter > 100000 {
@@ -722,8 +827,27 @@ func c07RunHonest(s *c07Scn, w *c07World) (*xt.T, Verdict) {
 			bad("parent-missing", "%s", msg)
 		}
 	}
-	if ok, msg := c07TablesUsable(dst); !ok {
+	// every table that was usable before, and every table the receiver reports as saved, is usable now
+	mustBeUsable := map[string]bool{}
+	for k := range usableBefore {
+		mustBeUsable[k] = true
+	}
+	for k := range savedTables {
+		mustBeUsable[k] = true
+	}
+	if ok, msg := c07TablesUsable(dst, mustBeUsable); !ok {
 		bad("table-unusable", "%s", msg)
+	}
+	for k := range mustBeUsable {
+		if !objects.TableExist(dst, []byte(k)) {
+			bad("table-unusable", "table %x reported saved / present before is not stored", k)
+		}
+	}
+	transmitted := map[string]bool{}
+	for _, o := range seq {
+		if o.kind == "table" {
+			transmitted[o.sum] = true
+		}
 	}
 	// order of the object sequence
 	cb0 := w.initialCommonBlocks()
@@ -794,7 +918,7 @@ func c07RunHonest(s *c07Scn, w *c07World) (*xt.T, Verdict) {
 		if !objects.CommitExist(w.src, w.coms[i].Sum) {
 			pre.commonsInSrc = false
 		}
-		if _, ok := before[string(c07Key("tbl/", w.coms[i].Table))]; !ok {
+		if !usableBefore[string(w.coms[i].Table)] {
 			pre.commonsFull = false
 		}
 	}
@@ -835,6 +959,7 @@ func c07RunHonest(s *c07Scn, w *c07World) (*xt.T, Verdict) {
 			bad("receiver-not-done", "sender done but receiver still expects commits")
 		}
 		expectKeys := map[string]bool{}
+		rebuilt := map[string]bool{} // keys verified equal to the source's: may legitimately replace stale content
 		for k := range before {
 			expectKeys[k] = true
 		}
@@ -857,8 +982,11 @@ func c07RunHonest(s *c07Scn, w *c07World) (*xt.T, Verdict) {
 					isCommon = true
 				}
 			}
-			if isCommon && !pre.commonsFull {
-				if _, ok := before[string(c07Key("tbl/", cm.Table))]; !ok {
+			if !transmitted[string(cm.Table)] {
+				if !isCommon {
+					bad("table-not-transmitted", "table %x is in tablesToSend, held by the source, not common, yet never sent", cm.Table)
+				}
+				if !usableBefore[string(cm.Table)] {
 					continue // shallow common: the table is (by design of the sender) not transmitted
 				}
 			}
@@ -868,6 +996,7 @@ func c07RunHonest(s *c07Scn, w *c07World) (*xt.T, Verdict) {
 			}
 			for _, key := range keys {
 				expectKeys[string(key)] = true
+				rebuilt[string(key)] = true
 				if ok, msg := c07RawEq(w.all, dst, key); !ok {
 					bad("object-differs", "%s", msg)
 				}
@@ -885,7 +1014,7 @@ func c07RunHonest(s *c07Scn, w *c07World) (*xt.T, Verdict) {
 				bad("frame-extra", "unexpected key %q at the destination", k)
 				break
 			}
-			if old, ok := before[k]; ok && !bytes.Equal(old, val) {
+			if old, ok := before[k]; ok && !rebuilt[k] && !bytes.Equal(old, val) {
 				bad("frame-changed", "key %q changed at the destination", k)
 				break
 			}
@@ -933,6 +1062,9 @@ func c07Tamper(w *c07World, o c07RawObj, k int, extra map[string]int) c07RawObj 
 		case 2:
 			tbl.PK = []uint32{7}
 			base = 3000
+		case 4: // first out-of-range value
+			tbl.PK = []uint32{uint32(len(tbl.Columns))}
+			base = 4000
 		default:
 			return c07RawObj{o.typ, []byte("garbage")}
 		}
@@ -997,6 +1129,13 @@ func (w *c07World) absRaw(o c07RawObj, extra map[string]int) *xt.T {
 func c07RunHostile(s *c07Scn, w *c07World) (*xt.T, Verdict) {
 	dst := w.buildDst()
 	closedBefore, _ := c07Closed(dst)
+	usableBefore := c07UsableSet(dst)
+	savedTables := map[string]bool{}
+	hook := apiutils.WithReceiverSaveObjectHook(func(objType int, sum []byte) {
+		if objType == packfile.ObjectTable {
+			savedTables[string(sum)] = true
+		}
+	})
 	coms, tbs, commons, expected := w.senderArgs()
 	extra := map[string]int{}
 	v := OK()
@@ -1057,7 +1196,7 @@ func c07RunHostile(s *c07Scn, w *c07World) (*xt.T, Verdict) {
 		}
 	}
 	// re-frame with the real writer and receive
-	receiver := apiutils.NewObjectReceiver(dst, expected, logr.Discard())
+	receiver := apiutils.NewObjectReceiver(dst, expected, logr.Discard(), hook)
 	status := 0
 	recvDone := false
 	packs := xt.N()
@@ -1105,8 +1244,21 @@ func c07RunHostile(s *c07Scn, w *c07World) (*xt.T, Verdict) {
 			bad("parent-missing", "%s", msg)
 		}
 	}
-	if ok, msg := c07TablesUsable(dst); !ok {
+	for k := range savedTables {
+		usableBefore[k] = true
+	}
+	if ok, msg := c07TablesUsable(dst, usableBefore); !ok {
 		bad("table-unusable", "%s", msg)
+	}
+	// a table object that was not there before can only have come from an accepted table
+	after, _ := objects.GetAllTableKeys(dst)
+	beforeKeys := w.buildDst()
+	for _, k := range after {
+		if !objects.TableExist(beforeKeys, k) && !usableBefore[string(k)] {
+			if ok, msg := c07TableUsable(dst, k); !ok {
+				bad("table-unusable", "new table: %s", msg)
+			}
+		}
 	}
 	return obs, v
 }
@@ -1127,7 +1279,17 @@ var c07Pool = []c07Tbl{
 	{0, []int{2}},
 	{1, []int{1, 103}},
 	{0, []int{106}},
+	// key not the leading column / key columns last and in another order than the header
+	{2, []int{1, 103}},
+	{3, []int{1, 2, 105}},
+	{2, []int{101}},
+	{2, []int{1, 104}},
+	{3, []int{102}},
 }
+
+// author zones (minutes east of UTC): whole hours, positive and NEGATIVE fractional hours, the
+// +14h / -12h ends of the scale, one minute west
+var c07Zones = []int{0, 420, -210, -570, 345, 840, -720, -1, 765, -150, 330, -1439}
 
 func c07Seq0(n int) []int {
 	r := make([]int, n)
@@ -1307,6 +1469,10 @@ func (g *c07Gen) randDag(n int, ntbl int) *c07Scn {
 	}
 	for i := 0; i < n; i++ {
 		c := c07Com{tbl: ctx.Pick(ntbl)}
+		if ctx.Pick(2) == 0 {
+			c.tz = c07Zones[ctx.Pick(len(c07Zones))]
+			ctx.Count("commits_with_zone")
+		}
 		if i > 0 {
 			np := 1
 			r := ctx.Pick(10)
@@ -1361,7 +1527,8 @@ func (g *c07Gen) dstClass(s *c07Scn, class int) {
 	allChunks := []int{}
 	seen := map[int]bool{}
 	for _, t := range s.tbls {
-		for _, k := range t.chunks {
+		for _, ch := range t.chunks {
+			k := c07Blk(t.pkv, ch)
 			if !seen[k] {
 				seen[k] = true
 				allChunks = append(allChunks, k)
@@ -1401,6 +1568,41 @@ func (g *c07Gen) dstClass(s *c07Scn, class int) {
 		s.preT = g.subset(commonTbls(), 50)
 		s.preB = g.subset(allChunks, 20)
 		ctx.Count("dst_shallow_commons")
+	case 5: // commons full; every other table present as an arbitrary subset of its objects, kind by kind
+		s.preC = closedCommons
+		s.preT = commonTbls()
+		isCommonTbl := map[int]bool{}
+		for _, t := range s.preT {
+			isCommonTbl[t] = true
+		}
+		for t, tb := range s.tbls {
+			if isCommonTbl[t] {
+				continue
+			}
+			if ctx.Pick(100) < 50 {
+				s.preTO = append(s.preTO, t)
+			}
+			switch r := ctx.Pick(100); {
+			case r < 20:
+				s.preTI = append(s.preTI, t)
+			case r < 40:
+				s.preTP = append(s.preTP, t)
+			case r < 55:
+				s.preStale = append(s.preStale, t)
+			case r < 65:
+				s.preTI = append(s.preTI, t)
+				s.preTP = append(s.preTP, t)
+			}
+			for j, k := range tb.chunks {
+				if ctx.Pick(100) < 40 {
+					s.preB = append(s.preB, c07Blk(tb.pkv, k))
+				}
+				if ctx.Pick(100) < 30 {
+					s.preX = append(s.preX, [2]int{t, j})
+				}
+			}
+		}
+		ctx.Count("dst_partial_kinds")
 	}
 }
 
@@ -1410,12 +1612,12 @@ func genC07(ctx *Ctx) []Case {
 	// ---- fixed witnesses
 	// the probe of DESIGN section 8: two commits, three blocks, max = 1
 	for _, mx := range c07Maxes {
-		g.add("fixed", true, &c07Scn{tbls: []c07Tbl{P[2], P[3]}, coms: []c07Com{{0, nil}, {1, []int{0}}},
+		g.add("fixed", true, &c07Scn{tbls: []c07Tbl{P[2], P[3]}, coms: []c07Com{{0, nil, 0}, {1, []int{0}, 0}},
 			tosend: []int{0, 1}, tbs: []int{0, 1}, max: mx})
 	}
 	// size limits falling exactly on object boundaries of the probe (and one byte either side)
 	{
-		probe := &c07Scn{tbls: []c07Tbl{P[2], P[3]}, coms: []c07Com{{0, nil}, {1, []int{0}}}, tosend: []int{0, 1}, tbs: []int{0, 1}}
+		probe := &c07Scn{tbls: []c07Tbl{P[2], P[3]}, coms: []c07Com{{0, nil, 0}, {1, []int{0}, 0}}, tosend: []int{0, 1}, tbs: []int{0, 1}}
 		for _, cum := range c07CumSizes(probe) {
 			for _, d := range []uint64{0, 1} {
 				c := *probe
@@ -1429,47 +1631,103 @@ func genC07(ctx *Ctx) []Case {
 	}
 	// identical table on several commits; same rows under another pk; empty table; 255-row table
 	g.add("fixed", true, &c07Scn{tbls: []c07Tbl{P[0], P[1], P[0], P[4], P[5], P[7]},
-		coms:   []c07Com{{0, nil}, {1, nil}, {2, []int{0, 1}}, {3, []int{2}}, {4, []int{3}}, {5, []int{4}}},
+		coms:   []c07Com{{0, nil, 0}, {1, nil, 0}, {2, []int{0, 1}, 0}, {3, []int{2}, 0}, {4, []int{3}, 0}, {5, []int{4}, 0}},
 		tosend: c07Seq0(6), tbs: c07Seq0(6), max: 1})
 	// common commit full at destination, child table shares its first block
-	g.add("fixed", true, &c07Scn{tbls: []c07Tbl{P[2], P[3]}, coms: []c07Com{{0, nil}, {1, []int{0}}},
+	g.add("fixed", true, &c07Scn{tbls: []c07Tbl{P[2], P[3]}, coms: []c07Com{{0, nil, 0}, {1, []int{0}, 0}},
 		tosend: []int{1}, tbs: []int{1}, commons: []int{0}, preC: []int{0}, preT: []int{0}, max: 17})
 	// shallow common (loud): destination has commit 0 without its table; table 1 shares block 1 -> rejected
-	g.add("fixed-shallow", true, &c07Scn{tbls: []c07Tbl{P[2], P[3]}, coms: []c07Com{{0, nil}, {1, []int{0}}},
+	g.add("fixed-shallow", true, &c07Scn{tbls: []c07Tbl{P[2], P[3]}, coms: []c07Com{{0, nil, 0}, {1, []int{0}, 0}},
 		tosend: []int{1}, tbs: []int{1}, commons: []int{0}, preC: []int{0}, max: 200})
 	// shallow common, the shared block happens to be there as a bare block -> accepted
-	g.add("fixed-shallow", true, &c07Scn{tbls: []c07Tbl{P[2], P[3]}, coms: []c07Com{{0, nil}, {1, []int{0}}},
+	g.add("fixed-shallow", true, &c07Scn{tbls: []c07Tbl{P[2], P[3]}, coms: []c07Com{{0, nil, 0}, {1, []int{0}, 0}},
 		tosend: []int{1}, tbs: []int{1}, commons: []int{0}, preC: []int{0}, preB: []int{1}, max: 200})
 	// shallow common (silent): the sent commit has the very table of the shallow common commit
-	g.add("fixed-shallow", true, &c07Scn{tbls: []c07Tbl{P[2]}, coms: []c07Com{{0, nil}, {0, []int{0}}},
+	g.add("fixed-shallow", true, &c07Scn{tbls: []c07Tbl{P[2]}, coms: []c07Com{{0, nil, 0}, {0, []int{0}, 0}},
 		tosend: []int{1}, tbs: []int{0}, commons: []int{0}, preC: []int{0}, max: 200})
 	// parent missing at the destination: not parent-first
-	g.add("fixed-badorder", true, &c07Scn{tbls: []c07Tbl{P[0], P[1]}, coms: []c07Com{{0, nil}, {1, []int{0}}},
+	g.add("fixed-badorder", true, &c07Scn{tbls: []c07Tbl{P[0], P[1]}, coms: []c07Com{{0, nil, 0}, {1, []int{0}, 0}},
 		tosend: []int{1, 0}, tbs: []int{0, 1}, max: 1})
-	g.add("fixed-badorder", true, &c07Scn{tbls: []c07Tbl{P[0], P[1]}, coms: []c07Com{{0, nil}, {1, []int{0}}},
+	g.add("fixed-badorder", true, &c07Scn{tbls: []c07Tbl{P[0], P[1]}, coms: []c07Com{{0, nil, 0}, {1, []int{0}, 0}},
 		tosend: []int{1}, tbs: []int{1}, max: 4096})
 	// source lacks a table (shallow source) / lacks a block (sender error) / common commit unknown to the source
-	g.add("fixed-src", true, &c07Scn{tbls: []c07Tbl{P[0], P[2]}, coms: []c07Com{{0, nil}, {1, []int{0}}},
+	g.add("fixed-src", true, &c07Scn{tbls: []c07Tbl{P[0], P[2]}, coms: []c07Com{{0, nil, 0}, {1, []int{0}, 0}},
 		dropT: []int{1}, tosend: []int{0, 1}, tbs: []int{0, 1}, max: 1})
-	g.add("fixed-src", true, &c07Scn{tbls: []c07Tbl{P[0], P[2]}, coms: []c07Com{{0, nil}, {1, []int{0}}},
+	g.add("fixed-src", true, &c07Scn{tbls: []c07Tbl{P[0], P[2]}, coms: []c07Com{{0, nil, 0}, {1, []int{0}, 0}},
 		dropB: []int{103}, tosend: []int{0, 1}, tbs: []int{0, 1}, max: 1})
-	g.add("fixed-src", true, &c07Scn{tbls: []c07Tbl{P[0], P[2]}, coms: []c07Com{{0, nil}, {1, []int{0}}},
+	g.add("fixed-src", true, &c07Scn{tbls: []c07Tbl{P[0], P[2]}, coms: []c07Com{{0, nil, 0}, {1, []int{0}, 0}},
 		dropB: []int{103}, tosend: []int{0, 1}, tbs: []int{0, 1}, max: 1 << 40})
 	// tables not in tablesToSend (depth-limited fetch): commits arrive shallow
-	g.add("fixed", true, &c07Scn{tbls: []c07Tbl{P[0], P[1], P[6]}, coms: []c07Com{{0, nil}, {1, []int{0}}, {2, []int{1}}},
+	g.add("fixed", true, &c07Scn{tbls: []c07Tbl{P[0], P[1], P[6]}, coms: []c07Com{{0, nil, 0}, {1, []int{0}, 0}, {2, []int{1}, 0}},
 		tosend: []int{0, 1, 2}, tbs: []int{2}, max: 200})
+	// destination pre-populated per object kind: table object alone, with its blocks but no indices,
+	// stale index/profile, single block indices, indices without the table
+	for _, mx := range []uint64{1, 1 << 40} {
+		pp := func() *c07Scn {
+			return &c07Scn{tbls: []c07Tbl{P[2], P[3]}, coms: []c07Com{{0, nil, 0}, {1, []int{0}, 0}}, tosend: []int{0, 1}, tbs: []int{0, 1}, max: mx}
+		}
+		for _, f := range []func(*c07Scn){
+			func(c *c07Scn) { c.preTO = []int{0, 1} },
+			func(c *c07Scn) { c.preTO = []int{0}; c.preB = []int{1, 103} },
+			func(c *c07Scn) { c.preTO = []int{1}; c.preStale = []int{1}; c.preX = [][2]int{{1, 0}} },
+			func(c *c07Scn) { c.preTI = []int{0}; c.preTP = []int{1}; c.preX = [][2]int{{0, 1}, {1, 1}} },
+			func(c *c07Scn) { c.preStale = []int{0, 1}; c.preB = []int{104} },
+			func(c *c07Scn) { // first commit common and full, the sent table's object already there, its own block not
+				c.tosend, c.tbs, c.commons, c.preC, c.preT, c.preTO = []int{1}, []int{1}, []int{0}, []int{0}, []int{0}, []int{1}
+			},
+			func(c *c07Scn) { // shallow common + table object of the sent table present: the shared block is missing
+				c.tosend, c.tbs, c.commons, c.preC, c.preTO = []int{1}, []int{1}, []int{0}, []int{0}, []int{1}
+			},
+		} {
+			c := pp()
+			f(c)
+			g.add("fixed-partial", true, c)
+		}
+	}
+	// key columns not leading / in another order, multi-block, shared first block; with and without a common commit
+	for _, mx := range []uint64{200, 1 << 40} {
+		g.add("fixed-keycols", true, &c07Scn{tbls: []c07Tbl{P[10], P[11], P[13], P[12], P[14]},
+			coms:   []c07Com{{0, nil, 0}, {1, []int{0}, 0}, {2, []int{1}, 0}, {3, []int{1, 2}, 0}, {4, []int{3}, 0}},
+			tosend: c07Seq0(5), tbs: c07Seq0(5), max: mx})
+		g.add("fixed-keycols", true, &c07Scn{tbls: []c07Tbl{P[10], P[11], P[13]},
+			coms:   []c07Com{{0, nil, 0}, {1, []int{0}, 0}, {2, []int{1}, 0}},
+			tosend: []int{1, 2}, tbs: []int{1, 2}, commons: []int{0}, preC: []int{0}, preT: []int{0}, max: mx})
+	}
+	// author zones: negative with minutes, the ends of the scale, one minute west; chain so that a commit
+	// stored under another id breaks its child
+	{
+		coms := []c07Com{}
+		for i, z := range c07Zones {
+			c := c07Com{i % 2, nil, z}
+			if i > 0 {
+				c.parents = []int{i - 1}
+			}
+			coms = append(coms, c)
+		}
+		for _, mx := range []uint64{1, 1 << 40} {
+			g.add("fixed-zone", true, &c07Scn{tbls: []c07Tbl{P[0], P[1]}, coms: coms, tosend: c07Seq0(len(coms)), tbs: []int{0, 1}, max: mx})
+		}
+	}
 	// nothing to send
-	g.add("fixed", false, &c07Scn{tbls: []c07Tbl{P[0]}, coms: []c07Com{{0, nil}}, max: 17})
+	g.add("fixed", false, &c07Scn{tbls: []c07Tbl{P[0]}, coms: []c07Com{{0, nil, 0}}, max: 17})
 	// hostile witnesses: rejected table must leave no table/index behind (fix 2b449a8), malformed tables (fix 427cc6f)
 	base := func() *c07Scn {
-		return &c07Scn{tag: 1, tbls: []c07Tbl{P[2], P[3]}, coms: []c07Com{{0, nil}, {1, []int{0}}},
+		return &c07Scn{tag: 1, tbls: []c07Tbl{P[2], P[3]}, coms: []c07Com{{0, nil, 0}, {1, []int{0}, 0}},
 			tosend: []int{0, 1}, tbs: []int{0, 1}, cut: 3}
 	}
 	// stream: b1 b103 T0 c0 b104 T1 c1
-	for k := 0; k <= 3; k++ {
+	for k := 0; k <= 4; k++ { // kind 4: pk index == number of columns, behind its valid blocks
 		h := base()
 		h.ops = [][]int{{2, 2, k}}
 		g.add("fixed-hostile", true, h)
+	}
+	for _, pool := range []int{10, 11} { // the same boundary on tables whose key is not leading
+		h := &c07Scn{tag: 1, tbls: []c07Tbl{P[pool]}, coms: []c07Com{{0, nil, 0}}, tosend: []int{0}, tbs: []int{0}, cut: 100}
+		for k := 0; k <= 4; k++ {
+			c := *h
+			c.ops = [][]int{{2, len(P[pool].chunks), k}}
+			g.add("fixed-hostile", true, &c)
+		}
 	}
 	for _, ops := range [][][]int{
 		{{0, 0}},         // drop the shared block: T0 rejected
@@ -1531,11 +1789,55 @@ func genC07(ctx *Ctx) []Case {
 				if len(coms) == nmax-1 && !ctx.Thorough() && (t+len(ps)+len(coms))%2 == 1 {
 					continue // quick tier: half of the last level
 				}
-				rec(append(append([]c07Com{}, coms...), c07Com{t, ps}))
+				rec(append(append([]c07Com{}, coms...), c07Com{t, ps, 0}))
 			}
 		}
 	}
 	rec(nil)
+
+	// ---- exhaustive over the destination's content, object kind by object kind: one commit whose two-block
+	// table is sent; every subset of {table object, table index, profile, block 0, block 1, block index 0,
+	// block index 1} already at the destination (128 subsets); in thorough also stale index/profile and limit 1
+	for mask := 0; mask < 128; mask++ {
+		mk := func(mx uint64, stale bool) *c07Scn {
+			c := &c07Scn{tbls: []c07Tbl{P[2]}, coms: []c07Com{{0, nil, 0}}, tosend: []int{0}, tbs: []int{0}, max: mx}
+			if mask&1 != 0 {
+				c.preTO = []int{0}
+			}
+			if stale {
+				if mask&6 != 0 {
+					c.preStale = []int{0}
+				}
+			} else {
+				if mask&2 != 0 {
+					c.preTI = []int{0}
+				}
+				if mask&4 != 0 {
+					c.preTP = []int{0}
+				}
+			}
+			if mask&8 != 0 {
+				c.preB = append(c.preB, 1)
+			}
+			if mask&16 != 0 {
+				c.preB = append(c.preB, 103)
+			}
+			if mask&32 != 0 {
+				c.preX = append(c.preX, [2]int{0, 0})
+			}
+			if mask&64 != 0 {
+				c.preX = append(c.preX, [2]int{0, 1})
+			}
+			return c
+		}
+		g.add("exh-partial", true, mk(1<<40, false))
+		if ctx.Thorough() {
+			g.add("exh-partial", true, mk(1, false))
+			if mask&6 != 0 {
+				g.add("exh-partial", true, mk(1<<40, true))
+			}
+		}
+	}
 
 	// ---- random
 	n := 260
@@ -1602,7 +1904,7 @@ func genC07(ctx *Ctx) []Case {
 				ctx.Count("max_on_object_boundary")
 			}
 		}
-		class := ctx.Pick(5)
+		class := ctx.Pick(6)
 		g.dstClass(s, class)
 		// occasional precondition violations
 		tag := "rand"
@@ -1618,12 +1920,15 @@ func genC07(ctx *Ctx) []Case {
 			tag = "rand-srcdrop"
 		case 2:
 			if len(s.tbls[0].chunks) > 0 {
-				s.dropB = []int{s.tbls[0].chunks[0]}
+				s.dropB = []int{c07Blk(s.tbls[0].pkv, s.tbls[0].chunks[0])}
 				tag = "rand-srcdrop"
 			}
 		}
 		if class == 4 {
 			tag = "rand-shallow"
+		}
+		if class == 5 && tag == "rand" {
+			tag = "rand-partial"
 		}
 		if ctx.Pick(4) == 0 { // hostile variant of the same scenario
 			h := *s
@@ -1638,7 +1943,7 @@ func genC07(ctx *Ctx) []Case {
 				case 1:
 					h.ops = append(h.ops, []int{1, i, ctx.Pick(3 * nc)})
 				case 2:
-					h.ops = append(h.ops, []int{2, i, ctx.Pick(4)})
+					h.ops = append(h.ops, []int{2, i, ctx.Pick(5)})
 				default:
 					h.ops = append(h.ops, []int{3, i})
 				}
